@@ -654,12 +654,21 @@ func (f *Frame) calleeEffects(fi *FuncInfo) map[string]bool {
 		}
 		return map[string]bool{}
 	}
+	if r, ok := eng.effRound[fi.Fn]; ok {
+		// computed earlier in this round of the enclosing fixpoint, with approximations
+		eng.effCycle = true
+		return r
+	}
 	eng.effBusy[fi.Fn] = true
 	defer delete(eng.effBusy, fi.Fn)
+	outermost := len(eng.effBusy) == 1
 	outerCycle := eng.effCycle
 	var eff map[string]bool
 	tainted := false
 	for round := 0; round < 10; round++ {
+		if outermost {
+			eng.effRound = map[*types.Func]map[string]bool{}
+		}
 		eng.effCycle = false
 		eff = f.effectsOnce(fi)
 		if !eng.effCycle {
@@ -685,9 +694,34 @@ func (f *Frame) calleeEffects(fi *FuncInfo) map[string]bool {
 		}
 	}
 	eng.effCycle = outerCycle || tainted
-	// cache when nothing approximate was involved, or when this is the outermost computation (its fixpoint is done)
-	if !tainted || len(eng.effBusy) == 1 {
+	if tainted {
+		if eng.effMembers == nil {
+			eng.effMembers = map[*types.Func]map[string]bool{}
+		}
+		eng.effMembers[fi.Fn] = eff
+		if !outermost && eng.effRound != nil {
+			eng.effRound[fi.Fn] = eff
+		}
+	}
+	if outermost {
+		eng.effRound = nil
+	}
+	// cache when nothing approximate was involved; when the outermost computation of a recursive group is done, every
+	// member of the group gets the union of the group's sets (an over-approximation: precision is lost, not soundness)
+	if !tainted {
 		eng.effects[fi.Fn] = eff
+	} else if len(eng.effBusy) == 1 {
+		union := map[string]bool{}
+		for _, m := range eng.effMembers {
+			for k := range m {
+				union[k] = true
+			}
+		}
+		for fn := range eng.effMembers {
+			eng.effects[fn] = union
+		}
+		eng.effMembers = nil
+		eff = union
 	}
 	if os.Getenv("GOVC_DEBUG_EFFECTS") != "" {
 		fmt.Fprintf(os.Stderr, "effects(%s) = %v\n", fi.Fn.Name(), sortedKeys(eff))
